@@ -5,7 +5,7 @@ CLAIMED = {
             "Coq theorems (props/C07.v, axiom-free) about the chunk plan of Jac for ALL m>=1 and all valid "
             "chunk sizes: exactly ceil(m/k) sweeps, contiguous/in order/covering rows 0..m-1, 1..k rows each, "
             "batched iff more than one row, k=1 or m=1 never batched, all sweeps but the last retain the graph, "
-            "row-wise result independent of k. Tied to /repo by an exhaustive (m<=12, all k, both flags, both "
+            "row-wise result independent of k; and for the ENTRY POINTS themselves (Autojac.v model): an accepted backward / mtl_backward call issues exactly the chunk plan of m = total output scalars / number of losses (C07_backward_sweeps, C07_mtl_sweeps). Tied to /repo by an exhaustive (m<=12, all k, both flags, both "
             "entry points) comparison of the model's plan with the sweeps observed through a tensor hook, plus a "
             "direct oracle (sweep count, sizes, update values, vmap-incompatible graphs).",
             "DESIGN.md §8 C07",
@@ -78,7 +78,8 @@ CLAIMED["C08"] = ("proof",
     "is a function of the Gramian commutes with Q (meta-theorem); each of the 12 weighted models is shown to be "
     "literally of that Gramian form (same oracle answers / draws on both sides), giving A(J Q) = A(J) Q and the "
     "row-span clause; TrimmedMean is column-local and maps a zero column to 0. ConFIG's model is not in Gramian "
-    "form (pinv of the unit rows): for it the clause is checked by the oracle only. Direct oracle: exact rational "
+    "form: for it A(J Q) = A(J) Q is proved separately with the rotated pseudo-inverse oracle Q^T B, whose contract "
+    "transfers (C08_config). Direct oracle: exact rational "
     "orthogonal Q (signed permutations, Pythagorean Givens, integer Householder, dyadic Hadamard 1024x1024), "
     "column permutations, 1..2^17 zero columns, span residual, f32/f64; AGG-CORR on J and J.Q.",
     "DESIGN.md §8 C08",
@@ -90,7 +91,7 @@ CLAIMED["C09"] = ("proof",
     "under a fixed draw) c -> A(diag(c) J) is linear in c (all c, not only positive). Also proved: PCGrad, for EVERY "
     "fixed schedule, is linear in positive c (conflict tests scale-invariant, projections independent of the scale "
     "of the row projected on); ConFIG's unit rows are scale free and its output is linear in c given the same "
-    "pseudo-inverse oracle. NOT proved, checked by the direct oracle only: UPGrad's defect bound "
+    "pseudo-inverse oracle. UPGrad with reg_eps = 0 is EXACTLY linear for any oracle returning minimisers (C09_upgrad_unregularised). NOT proved, checked by the direct oracle only: UPGrad's quantitative defect bound "
     "K sqrt(reg_eps) s|w| on the ladder 1e-2..1e-12 and vanishing at 1e-16 (K = 10x the maximum measured on the "
     "unchanged tree). Oracle: three related scalings c1, c2, a c1 + b c2 with entries 2^-10..2^10, f32/f64.",
     "DESIGN.md §8 C09, §13",
@@ -98,18 +99,20 @@ CLAIMED["C09"] = ("proof",
     "matrix entries; the constant K is empirical.",
     "Coq proof (fixed-weight family, PCGrad, ConFIG) + differential oracle")
 CLAIMED["C10"] = ("proof",
-    "PARTIAL. Proved in Coq (props/C10.v), all sizes: permuting rows together with their weights leaves the "
+    "Proved in Coq (props/C10.v), all sizes: permuting rows together with their weights leaves the "
     "combination unchanged (meta-theorem; covers Constant / preference vectors permuted alongside and any "
     "equivariant weighting); Mean, Sum and TrimmedMean are invariant under any row permutation. Also proved "
     "(EquivarianceProofs.v): gram(J[p]) = G[p,p]; the constrained QP minimiser is equivariant and unique on both "
     "norm_eps branches, hence DualProj and UPGrad are invariant whenever the QP oracle answers are minimisers; "
-    "Krum under pairwise distinct scores; IMTL-G for the permuted Penrose inverse. NOT proved (oracle + "
-    "correspondence only): Frank-Wolfe (MGDA), eigh- and conic-solver-based weightings (Aligned-MTL, CAGrad), ConFIG. Oracle: ALL m! row permutations (m<=4 quick, <=5 thorough) for 13 aggregators with "
+    "Krum under pairwise distinct scores; IMTL-G for the permuted Penrose inverse. Also: MGDA when no exact tie occurs at an argmin along the run, ConFIG (pinv oracle with permuted "
+    "columns), CAGrad (solver answer permuted alongside; its optimality contract transfers) and Aligned-MTL "
+    "(eigenvectors permuted componentwise). 12 of the 13 aggregators of the property are now proved; GradDrop "
+    "(fixed seed) and Random are covered by the fixed-weight/meta theorems. Oracle: ALL m! row permutations (m<=4 quick, <=5 thorough) for 13 aggregators with "
     "pref/weight/leak vectors permuted alongside, GradDrop under a fixed seed, f32/f64, on tie-free inputs "
     "(exact MGDA argmin ties, Krum score ties, IMTL-G/CAGrad/ConFIG points of discontinuity are skipped and counted).",
     "DESIGN.md §8 C10, §13",
     "Trusted: Coq kernel + stdlib real axioms; Agg.v; tie/conditioning filters of the harness.",
-    "Coq proof (meta + 7 instances) + exhaustive-permutation oracle")
+    "Coq proof (meta + 11 instances) + exhaustive-permutation oracle")
 CLAIMED["C11"] = ("proof",
     "PARTIAL. Proved in Coq (props/C11.v): the 2-d/finiteness check is Ok iff 2-d and finite, else ValueError; "
     "row-count contradictions of Constant/pref vectors, GradDrop's leak, TrimmedMean, Krum yield ValueError; every "
